@@ -127,6 +127,10 @@ def rebound_public_names(P, pinned):
                             head, *rest = d.split(".")
                             q = P.canonical(".".join([m.imports.get(head, f"{m.name}.{head}")] + rest))
                             same = q in by_name[nm]
+                    if not same and isinstance(v, ast.Call) and nm in m.functions and nm not in m.imports and not getattr(node, "_bb_conditional", False):
+                        # f = wrap(f) below `def f` in the defining module: the program model records it on the function
+                        # (FunctionInfo.rebinds), every analysis entry goes through the wrapper and rule W judges it
+                        same = any(isinstance(x, ast.Name) and x.id == nm for x in ast.walk(v))
                     if not same:
                         out.append((m.relpath, node.lineno, ast.unparse(node)[:70]))
         # a star import that brings in another function of that name after this module bound the pinned one
